@@ -70,7 +70,8 @@ ASSUMPTIONS = [
 RULE = ("per runnable estimator (forecasters incl. composites, series / panel transformers, TSF/RISE/BOSS-family classifiers, TSF regressor) x containers "
         "(every entry with an n_jobs parameter of its own or of a component is in the n_jobs clause and listed in the evidence histogram as n_jobs-clause=<entry>; tuners: grid and randomized search over "
         "naive / pipeline / multiplexer forecasters with search spaces as a single dict, a list of dicts with different key sets and distributions, cv_results_ (params, mean scores, ranks), best_params_, "
-        "best_score_ compared as the observation `inspect`; n_jobs=None runs sequentially) x (Series/DataFrame, nested DataFrame/3D array, RangeIndex/Int64Index) x seeded data (outliers, NaN) x random interleavings of repeated apply-type calls "
+        "best_score_ compared as the observation `inspect`; n_jobs=None runs sequentially; estimators whose apply-type methods run Parallel (static list apply-path-Parallel) also with 100 trees / 100 instances "
+        "and the 2-/4-job call repeated against the sequential one) x (Series/DataFrame, nested DataFrame/3D array, RangeIndex/Int64Index) x seeded data (outliers, NaN) x random interleavings of repeated apply-type calls "
         "on the original, on equal-parameter twins (n_jobs None/1/2/4, threading backend), on a freshly fitted twin per call, on a pickled copy and on a deep copy, with ANOTHER object of the "
         "class (equal parameters / default-constructed) fitted on other data and used in between; copies: observable state (cutoff, data, stored horizon values and kind) compared at restore time, "
         "predict() without a horizon on every copy, pickled copy run through update + predict against a fresh twin; forecasters: horizon at fit relative or absolute, "
@@ -456,12 +457,21 @@ def table():
                              make=lambda rs, nj: IndividualTDE(window_size=8, word_length=4, random_state=rs))
     except Exception:
         pass
+    # LARGE forests / batches for the estimators whose apply-type methods run parallel jobs (static list `apply-path-Parallel`):
+    # enough trees and instances for the threads to interleave inside predict / predict_proba / transform
+    B = lambda **k: dict(conts=["numpy3D"], njobs=True, big=True, **k)
+    T["clf:tsf_big"] = B(fam="clf", make=lambda rs, nj: TimeSeriesForestClassifier(n_estimators=100, random_state=rs, n_jobs=(1 if nj is None else nj)))
+    T["reg:tsf_big"] = B(fam="reg", make=lambda rs, nj: TimeSeriesForestRegressor(n_estimators=100, random_state=rs, n_jobs=(1 if nj is None else nj)))
+    T["clf:rise_big"] = B(fam="clf", make=lambda rs, nj: RandomIntervalSpectralForest(n_estimators=24, acf_lag=8, min_interval=8, random_state=rs, n_jobs=nj))
+    T["clf:stsf_big"] = B(fam="clf", make=lambda rs, nj: SupervisedTimeSeriesForest(n_estimators=10, random_state=rs, n_jobs=(1 if nj is None else nj)))
+    T["clf:iboss_big"] = B(fam="clf", make=lambda rs, nj: IndividualBOSS(window_size=8, word_length=4, random_state=rs, n_jobs=(1 if nj is None else nj)))
+    T["pt:sfa_big"] = B(fam="pt", make=lambda rs, nj: SFA(word_length=4, window_size=8, n_jobs=(1 if nj is None else nj)))
     T["reg:tsf"] = dict(fam="reg", conts=["nested", "numpy3D"], njobs=True,
                         make=lambda rs, nj: TimeSeriesForestRegressor(n_estimators=5, random_state=rs, n_jobs=(1 if nj is None else nj)))
     # a RandomState INSTANCE as random_state: not for estimators that draw from it inside an apply-type method
     # (BOSS / cBOSS / TDE tie-breaks in predict, Imputer(method="random") in transform: an instance is consumed by
     # every call, which is sklearn's documented meaning of passing an instance) nor where the docstring says "int" only
-    for k, why in (("clf:boss", "draws-in-predict"), ("clf:cboss", "draws-in-predict"), ("clf:boss_even", "draws-in-predict"), ("clf:cboss_even", "draws-in-predict"), ("clf:itde", "draws-in-predict"),
+    for k, why in (("clf:iboss_big", "draws-in-predict"), ("clf:stsf_big", "documented-int-only"), ("clf:boss", "draws-in-predict"), ("clf:cboss", "draws-in-predict"), ("clf:boss_even", "draws-in-predict"), ("clf:cboss_even", "draws-in-predict"), ("clf:itde", "draws-in-predict"),
                    ("clf:iboss", "draws-in-predict"), ("clf:column_ensemble", "member-draws-in-predict"),
                    ("st:imputer_random", "draws-in-transform"), ("clf:stsf", "documented-int-only")):
         if k in T:
@@ -985,6 +995,10 @@ def run_static(c):
     for it in r.get("truthy", []):
         new.append(("static:%s:%s:random_state-truthiness" % (it["file"], it["func"]),
                     "`%s` in %s (%s): the integer seed 0 is falsy and would be treated as unseeded" % (it["expr"], it["func"], it["file"])))
+    for it in r.get("buffers", []):
+        new.append(("static:%s:%s:buffer-shared-by-parallel-jobs" % (it["file"], it["func"]),
+                    "`%s` is allocated in %s (%s) and passed to every job of a Parallel call: under threads the jobs overwrite each other's data" % (it["name"], it["func"], it["file"])))
+    _STATIC["apply_parallel"] = sorted(set(it["func"] for it in r.get("apply_parallel", [])))
     for it in r.get("shared", []):
         new.append(("static:%s:%s:module-level-estimator-instance-used-without-clone" % (it["file"], it["func"]),
                     "`%s` (module level) is used in %s (%s) without clone: all objects share and refit one instance" % (it["name"], it["func"], it["file"])))
@@ -1214,6 +1228,8 @@ def features(c, out):
     elif k == "static":
         for kk, v in sorted(_STATIC.get("counts", {}).items()):
             f.append("static:%s=%s" % (kk, v))
+        for fn in _STATIC.get("apply_parallel", []):
+            f.append("apply-path-Parallel=" + fn)
     else:
         f += ["core=" + (c["core"] if not c["core"].startswith("opaque") else "opaque"), "mode=" + c["mode"]]
         for op in c["ops"]:
@@ -1327,6 +1343,22 @@ def _seq_case(rng, key, cont, quick, variant=0, rsform=None, compact=False):
     return c
 
 
+def _big_case(rng, key):
+    """one fitted copy per n_jobs in {1, 2, 4}; the parallel apply-type call repeated on the 2- and 4-job copies and compared
+    with the sequential one (100 instances, series of length 40)"""
+    e = table()[key]
+    est = e["make"](1, None)
+    m = [x for x in ("predict_proba", "predict", "transform") if hasattr(est, x)][0]
+    calls = [["o", m, "b"], ["j1", m, "b"]]
+    for _ in range(3):
+        calls += [["j4", m, "b"], ["j2", m, "b"]]
+    calls += [["j4", m, "a"], ["o", m, "a"], ["o", m, "b", "k"]]
+    c = {"kind": "seq", "est": key, "cont": "numpy3D", "seed": rng.randrange(1, 10 ** 6), "n": 40, "ninst": 100, "calls": calls, "fitkw": False}
+    if has_random_state(key):
+        c["rsform"] = rng.choice(["int", "npint", "zero"])
+    return c
+
+
 def _history12(rng, core, mode, long=False):
     """fit(fh?) then interleaved predict calls (explicit / default horizons), update_predict, update, predict again"""
     opq = core.startswith("opaque")
@@ -1406,6 +1438,10 @@ def gen_cases(tier, rng):
     for key in sorted(T):
         e = T[key]
         if quick and e.get("slow"):
+            continue
+        if e.get("big"):
+            for _ in range(1 if quick else 3):
+                cases.append(_big_case(rng, key))
             continue
         for cont in e["conts"]:
             for v in range(reps if not e.get("tuner") else max(1, reps // 2)):      # a tuner case costs about ten ordinary ones
